@@ -155,6 +155,8 @@ def run_case(case, ctx):
 	if any(set(c.upper()) - set('ACGT') for c in contigs):
 		classes.add('non_acgt')
 	classes.add(f'contigs={min(len(contigs), 4)}')
+	if any(len(c) > 8192 for c in contigs):
+		classes.add('contig>8KiB')
 	return {'nontrivial': bool(exp) and len(contigs) >= 2, 'classes': sorted(classes)}
 
 
@@ -178,6 +180,7 @@ def gen_case(draw, tier):
 		st.text(alphabet=''.join(sorted(set(prefix))), min_size=1, max_size=10),
 		st.integers(0, 2 ** 20).map(lambda seed: ''.join(random.Random(seed).choice('ACGT') for _ in range(150))),
 	)
+	big = draw(st.integers(0, 29)) == 29
 	ncontigs = draw(st.sampled_from([1, 2, 2, 3, 4, 6]))
 	contigs = []
 	carry = None
@@ -200,6 +203,11 @@ def gen_case(draw, tier):
 			carry = full[cut:]
 		elif tail == 'full_hit':
 			body = body + prefix + x
+		if big and i == 0:
+			# a contig larger than any I/O buffer (text wrapper 8 KiB, gzip 128 KiB)
+			body = body + ''.join(random.Random(draw(st.integers(0, 1000))).choice('ACGT') for _ in range(draw(st.sampled_from([9000, 70000, 140000]))))
+			contigs.append(body)
+			continue
 		contigs.append(body[:600])
 	n = len(contigs)
 	transform = {
